@@ -387,6 +387,17 @@ func (g *goGen) genCall(n ECall) goVal {
 	case "f64frombits":
 		g.r.imports["math"] = true
 		return goVal{code: "math.Float64frombits(uint64(" + g.asInt(arg(0)) + "))", t: types.Typ[types.Float64]}
+	case "blen":
+		return goVal{code: "int64(" + tensorOf(arg(0)) + ".DataSize())", isInt: true}
+	case "zeroed":
+		return goVal{code: "false", t: types.Typ[types.Bool]}
+	case "telem":
+		ts, ok := n.Args[1].(EStr)
+		if !ok {
+			g.failf("telem type")
+		}
+		et := g.x.prog.typeByName(ts.V)
+		return goVal{code: fmt.Sprintf("%s.Data().([]%s)[int(%s)]", tensorOf(arg(0)), ts.V, g.asInt(arg(2))), t: et}
 	case "fresh", "wf", "isdense":
 		// not observable on the concrete run; treat as satisfied
 		return goVal{code: "true", t: types.Typ[types.Bool]}
